@@ -80,9 +80,19 @@ def compress(codec, data, level=None):
         c = zlib.compressobj(6 if level is None else level, zlib.DEFLATED, -15)
         return c.compress(data) + c.flush()
     if codec == "bzip2":
-        return bz2.compress(data)
+        return bz2.compress(data) if level is None else bz2.compress(data, level)
     if codec == "xz":
-        return lzma.compress(data)
+        # what other encoders produce: other presets, other integrity checks,
+        # the 64 MiB dictionary of preset 9 (declared in the stream header,
+        # whatever the amount of data)
+        if level is None:
+            return lzma.compress(data)
+        if level == "bigdict":
+            return lzma.compress(data, format=lzma.FORMAT_XZ, check=lzma.CHECK_CRC64, filters=[
+                {"id": lzma.FILTER_LZMA2, "dict_size": 64 << 20, "mode": lzma.MODE_FAST, "mf": lzma.MF_HC3, "nice_len": 8, "depth": 1}])
+        if level in ("none", "crc32", "sha256"):
+            return lzma.compress(data, check={"none": lzma.CHECK_NONE, "crc32": lzma.CHECK_CRC32, "sha256": lzma.CHECK_SHA256}[level])
+        return lzma.compress(data, preset=level)
     raise ContainerError("codec %r not available" % codec)
 
 
